@@ -10,7 +10,7 @@ import "verifharness/tl"
 // New/push/cancel/Wait; random stress (cancel after everything ran => progress is checked; cancel at a random
 // moment => exactly-once under cancellation).
 func main() {
-	tl.Main("C06", []tl.Family{{Name: "scripted", Run: scripted}, {Name: "stress", Run: stress}})
+	tl.Main("C06", []tl.Family{{Name: "scripted", Run: scripted}, {Name: "timeoutrace", Run: timeoutrace}, {Name: "stress", Run: stress}})
 }
 
 func scripted(en *tl.Engine) {
@@ -23,6 +23,7 @@ func scripted(en *tl.Engine) {
 			n, q := c[0], c[1]
 			en.Timeouts(n, q)
 			en.TaskKinds(n, q, 3)
+			en.Reentrant(n, q)
 			for k := 0; k < 4; k++ {
 				en.CancelInsidePush(n, q, k, k%2 == 1)
 			}
@@ -39,6 +40,18 @@ func scripted(en *tl.Engine) {
 			en.BackToBack(2+i%3, 1+(i/3)%3, i%3, i)
 		}
 	}
+}
+
+// a timeout racing a drain: the lane starts to drain at T+delta, delta swept around 0, also on a single P
+func timeoutrace(en *tl.Engine) {
+	reps := 2
+	if en.E.Thorough() {
+		reps = 12
+	}
+	for _, c := range [][2]int{{1, 1}, {1, 2}, {2, 1}, {2, 2}, {3, 1}, {1, 0}, {2, 0}, {2, 3}} {
+		en.TimeoutRaces(c[0], c[1], reps)
+	}
+	en.RequireTimeoutRace()
 }
 
 func stress(en *tl.Engine) {
